@@ -18,8 +18,8 @@ type G struct {
 	guards map[string]bool // generator guards of known findings (DESIGN §7)
 }
 
-func (g *G) thorough() bool { return g.tier == "thorough" }
-func (g *G) chance(p float64) bool { return g.rng.Float64() < p }
+func (g *G) thorough() bool           { return g.tier == "thorough" }
+func (g *G) chance(p float64) bool    { return g.rng.Float64() < p }
 func (g *G) pick(xs ...string) string { return xs[g.rng.Intn(len(xs))] }
 func (g *G) n(lo, hi int) int {
 	if hi <= lo {
@@ -64,6 +64,9 @@ var metaPool = [][2]string{
 	{"Content-Type", "text/plain; charset=utf-8"}, {"Content-Type", "application/octet-stream"},
 	{"Content-Encoding", "gzip"}, {"Content-Disposition", `attachment; filename="a b.txt"`},
 	{"X-Amz-Meta-Mixed-Case-Name", "MiXeD"}, {"X-Amz-Storage-Class", "STANDARD"},
+	// header values are bytes: UTF-8 beyond ASCII, and Latin-1 (not valid UTF-8; written with the
+	// plan's byte escape, see decodedMeta)
+	{"X-Amz-Meta-Utf8", "ünï cödé"}, {"X-Amz-Meta-Author", `Ren\xe9`}, {"Content-Disposition", `attachment; filename="caf\xe9.txt"`},
 }
 
 func (g *G) meta() map[string]string {
@@ -81,7 +84,9 @@ func (g *G) meta() map[string]string {
 	return m
 }
 
-func (g *G) frag() string { return g.pick("whole", "whole", "halves", "bytes", "random", "random", "boundary") }
+func (g *G) frag() string {
+	return g.pick("whole", "whole", "halves", "bytes", "random", "random", "boundary")
+}
 
 func (g *G) policy(nClients int) simrt.Policy {
 	if nClients <= 1 {
